@@ -24,6 +24,15 @@
  *                              pplanes (pic), pes_id, duration, latency, tag
  *     newqsrc pN <length>      allocate a queue source
  *     newqsink pN pM           allocate a queue sink pushing into queue source pM
+ *     env fltag on|off         flow tags (see pipe_driver.c): buffers fed from now on carry the
+ *                              identity of their flow, the sinks print it
+ *     inpic pN <id> [k=v..]    upipe_input of a picture (planar y8/u8/v8 4:2:0, of the size of the
+ *                              flow definition last accepted by pN, 16x16 by default, filled from
+ *                              id); keys: pts_sys pts_prog dts_prog duration
+ *     insound pN <id> <samples> [k=v..]  upipe_input of a sound buffer (one plane "lr", 4 octets
+ *                              per sample)
+ *     intick pN <id> [k=v..]   upipe_input of a buffer-less uref (reference "clock" inputs)
+ *     contin pN                upipe_videocont_sub_set_input / upipe_audiocont_sub_set_input
  *     arm pN sM|off            the probe of pN answers the next need_output by
  *                              upipe_set_output(pN, sM) (once); prints
  *                              "probe out pN sM" when it does
@@ -50,6 +59,14 @@
 #include "upipe/uref_sound_flow.h"
 #include "upipe/uref_pic_flow.h"
 #include "upipe-ts/uref_ts_flow.h"
+#include "upipe/ubuf.h"
+#include "upipe/ubuf_pic.h"
+#include "upipe/ubuf_pic_mem.h"
+#include "upipe/ubuf_sound.h"
+#include "upipe/ubuf_sound_mem.h"
+#include "upipe/uref_pic.h"
+#include "upipe/uref_sound.h"
+#include "upipe/uref_attr.h"
 
 #include "pipe_driver.h"
 #include "vloop.h"
@@ -466,6 +483,7 @@ static void do_reset(void)
     }
     env_upump = env_uclock = false;
     memset(armed, 0, sizeof(armed));
+    pd_fl_reset();
 }
 
 static struct obj *new_slot(const char *name)
@@ -544,9 +562,106 @@ static void own_done(struct obj *o, struct upipe *up)
 static struct pipe_type pt_qsrc = { "qsrc", NULL, NULL, NULL };
 static struct pipe_type pt_qsink = { "qsink", NULL, NULL, NULL };
 
+/* ---- pictures, sound, reference ticks ------------------------------------- */
+static struct ubuf_mgr *av_pic_mgr, *av_sound_mgr;
+UREF_ATTR_UNSIGNED(avx, id, "x.id", packet id)
+
+static void av_attrs(struct uref *u, int nt, char **tok, int from)
+{
+    for (int k = from; k < nt; k++) {
+        if (!strncmp(tok[k], "pts_sys=", 8)) uref_clock_set_pts_sys(u, strtoull(tok[k] + 8, NULL, 10));
+        else if (!strncmp(tok[k], "pts_prog=", 9)) uref_clock_set_pts_prog(u, strtoull(tok[k] + 9, NULL, 10));
+        else if (!strncmp(tok[k], "dts_prog=", 9)) uref_clock_set_dts_prog(u, strtoull(tok[k] + 9, NULL, 10));
+        else if (!strncmp(tok[k], "duration=", 9)) uref_clock_set_duration(u, strtoull(tok[k] + 9, NULL, 10));
+    }
+}
+
+static bool av_cmd(int nt, char **tok)
+{
+    const char *c = tok[0];
+    if (!strcmp(c, "inpic") && nt >= 3) {
+        struct upipe *up = find_any(tok[1]);
+        if (!up) { ret(-1); return true; }
+        if (av_pic_mgr == NULL) {
+            av_pic_mgr = ubuf_pic_mem_mgr_alloc(0, 0, g_umem, 1, 0, 0, 0, 0, 0, 0);
+            ubuf_pic_mem_mgr_add_plane(av_pic_mgr, "y8", 1, 1, 1);
+            ubuf_pic_mem_mgr_add_plane(av_pic_mgr, "u8", 2, 2, 1);
+            ubuf_pic_mem_mgr_add_plane(av_pic_mgr, "v8", 2, 2, 1);
+        }
+        unsigned id = atoi(tok[2]), h = 16, v = 16;
+        pd_fl_size(tok[1], &h, &v);
+        struct uref *u = uref_pic_alloc(g_uref, av_pic_mgr, h, v);
+        if (u == NULL) { ret(-1); return true; }
+        const char *chroma[3] = { "y8", "u8", "v8" };
+        for (int pl = 0; pl < 3; pl++) {
+            uint8_t *buf; size_t stride; uint8_t hs, vs;
+            if (!ubase_check(uref_pic_plane_size(u, chroma[pl], &stride, &hs, &vs, NULL)) ||
+                !ubase_check(uref_pic_plane_write(u, chroma[pl], 0, 0, -1, -1, &buf))) continue;
+            for (unsigned y = 0; y < v / vs; y++)
+                for (unsigned x = 0; x < h / hs; x++)
+                    buf[y * stride + x] = (uint8_t)(id * 7 + pl * 31 + y * 5 + x);
+            uref_pic_plane_unmap(u, chroma[pl], 0, 0, -1, -1);
+        }
+        uref_avx_set_id(u, id);
+        av_attrs(u, nt, tok, 3);
+        pd_fl_tag(tok[1], u);
+        printf("input u%ld id=%u\n", uref_uid(u), id);
+        upipe_input(up, u, NULL);
+        ret(0);
+        return true;
+    }
+    if (!strcmp(c, "insound") && nt >= 4) {
+        struct upipe *up = find_any(tok[1]);
+        if (!up) { ret(-1); return true; }
+        if (av_sound_mgr == NULL) {
+            av_sound_mgr = ubuf_sound_mem_mgr_alloc(0, 0, g_umem, 4, 0);
+            ubuf_sound_mem_mgr_add_plane(av_sound_mgr, "lr");
+        }
+        unsigned id = atoi(tok[2]);
+        int samples = atoi(tok[3]);
+        struct uref *u = uref_sound_alloc(g_uref, av_sound_mgr, samples);
+        if (u == NULL) { ret(-1); return true; }
+        uint8_t *buf;
+        if (ubase_check(uref_sound_plane_write_uint8_t(u, "lr", 0, -1, &buf))) {
+            for (int i = 0; i < samples * 4; i++) buf[i] = (uint8_t)(id * 7 + i);
+            uref_sound_plane_unmap(u, "lr", 0, -1);
+        }
+        uref_avx_set_id(u, id);
+        av_attrs(u, nt, tok, 4);
+        pd_fl_tag(tok[1], u);
+        printf("input u%ld id=%u\n", uref_uid(u), id);
+        upipe_input(up, u, NULL);
+        ret(0);
+        return true;
+    }
+    if (!strcmp(c, "intick") && nt >= 3) {
+        struct upipe *up = find_any(tok[1]);
+        if (!up) { ret(-1); return true; }
+        struct uref *u = uref_alloc(g_uref);
+        if (u == NULL) { ret(-1); return true; }
+        uref_avx_set_id(u, atoi(tok[2]));
+        av_attrs(u, nt, tok, 3);
+        pd_fl_tag(tok[1], u);
+        printf("input u%ld id=%s\n", uref_uid(u), tok[2]);
+        upipe_input(up, u, NULL);
+        ret(0);
+        return true;
+    }
+    if (!strcmp(c, "contin") && nt >= 2) {
+        struct upipe *up = find_any(tok[1]);
+        if (!up) { ret(-1); return true; }
+        int err = upipe_videocont_sub_set_input(up);
+        if (!ubase_check(err)) err = upipe_audiocont_sub_set_input(up);
+        ret(err);
+        return true;
+    }
+    return false;
+}
+
 bool pd_ext_a(int nt, char **tok)
 {
     const char *c = tok[0];
+    if (av_cmd(nt, tok)) return true;
     if (!strcmp(c, "newf") && nt >= 4) {
         const struct pipe_type *pt = registry_find(tok[2]);
         if (pt == NULL) { ret(-1); return true; }
@@ -566,6 +681,7 @@ bool pd_ext_a(int nt, char **tok)
         if (!up) { ret(-1); return true; }
         struct uref *fd = build_fd(nt, tok, 2);
         int err = upipe_set_flow_def(up, fd);
+        if (ubase_check(err)) pd_fl_note(tok[1], fd);
         uref_free(fd);
         ret(err);
         return true;
@@ -600,6 +716,7 @@ bool pd_ext_a(int nt, char **tok)
         if (!strcmp(tok[1], "upump")) env_upump = on;
         else if (!strcmp(tok[1], "uclock")) env_uclock = on;
         else if (!strcmp(tok[1], "logmsg")) env_logmsg = on;
+        else if (!strcmp(tok[1], "fltag")) pd_fltag = on;
         else { ret(-1); return true; }
         ret(0);
         return true;
